@@ -4101,6 +4101,98 @@ def spec_hidden_element_nothing(ctx, make_exe):
     # (when no path skips a hidden element, the first postcondition above has already failed)
     return {"function": f.name, "paths": len(outs)}
 
+# ----------------------------------------------------------------------------
+# SPEC: add_text neither loses, duplicates nor reorders a character that is not whitespace (content of the
+# flushed lines, the current line and the word buffer is tracked as a sequence of element tokens)
+# ----------------------------------------------------------------------------
+
+def spec_wrap_text_preserved_normal(ctx, make_exe):
+    return spec_wrap_text_preserved(ctx, make_exe, plans=[("Normal", 2, ["a", " ", "\n", "\t", "wide", "comb", "nbsp"])])
+
+
+def spec_wrap_text_preserved(ctx, make_exe, plans=None):
+    import wrapmodel
+    import summaries
+    f = the(ctx.find(r"::add_text$", debug=["self", "text", "ws_mode", "main_tag", "wrap_tag"]), "WrappedBlock::add_text")
+    total = 0
+    if plans is None:
+        plans = [("Normal", 2, ["a", " ", "\n", "\t", "wide", "comb", "nbsp"]), ("Pre", 2, ["a", " ", "\n", "wide"]), ("PreWrap", 2, ["a", " ", "\n", "wide"]),
+                 ("Pre", 1, ["\t"]), ("Normal", 3, ["a", " ", "wide", "comb"])]
+    for (mode, nchars, alphabet) in plans:
+        for tag_some in (True, False):
+            exe = make_exe(inline=WRAP_INLINE, loop_bound=30 if "\t" in alphabet else 24, timeout_ms=20000)
+            m = wrapmodel.WrapModel(ctx, exe)
+            m.track = True
+            m.install(hard_wrap="contract")
+            st = State()
+            st.pc += m.invariant(mode == "Normal", tag_some)
+            modev = exe.fresh("u8", "s.mode")
+            st.pc.append(modev.e == {"Normal": 0, "Pre": 1, "PreWrap": 2}[mode])
+            exe.cell_n += 1
+            cid = "cell%d" % exe.cell_n
+            exe.global_cells[cid] = m.block(tag_some)
+            ref = VRef("cell", cid)
+            chars = []
+            for i in range(nchars):
+                c = exe.fresh("u32", "ch%d" % i)
+                st.pc.append(wrapmodel.in_alphabet(c.e, alphabet))
+                chars.append(c)
+            st.pc += [z3.ULE(m.wslen.e, u64(3))]
+            if "\t" in alphabet:
+                st.pc += [z3.ULE(m.width.e, u64(20))]
+            exe.hints = [z3.ULE(m.width.e, u64(12)), z3.ULE(m.wordlen.e, u64(12)), z3.ULE(m.line_len.e, u64(12)), z3.ULE(m.text_count.e, u64(3))]
+            try:
+                outs = exe.run(f.name, {1: ref, 2: VRef("val", VVec(chars)), 3: wrapmodel.ws_mode(mode),
+                                        4: VRef("val", VOpaque("T", "main_tag")), 5: VRef("val", VOpaque("T", "wrap_tag"))}, st)
+            finally:
+                m.uninstall()
+            total += len(outs)
+            n_ok = 0
+            for (s2, ret) in outs:
+                if not (isinstance(ret, VAgg) and ret.variant == "Ok"):
+                    continue
+                n_ok += 1
+                blk = exe.deref(s2, ref)
+                g = lambda n_: blk.fields[m.names.index(n_)]
+                text, line, word = g("text"), g("line"), g("word")
+                if not (len(text.fields) == 3 and isinstance(line.fields[0], VVec) and isinstance(word.fields[0], VVec)):
+                    raise Inconclusive("content of the block not tracked on some path")
+                seq = list(text.fields[2].elems) + list(line.fields[0].elems) + list(word.fields[0].elems)
+                wsness = {}
+
+                def is_ws(e_):
+                    # add_text branches on is_whitespace for every character, so each path determines it
+                    k_ = e_.get_id()
+                    if k_ not in wsness:
+                        wsness[k_] = exe.sat(s2.pc + [z3.Not(wrapmodel.char_is_ws(e_))]) is None
+                    return wsness[k_]
+                got = []
+                for t in seq:
+                    if isinstance(t, VAgg) and t.path == "ws":
+                        continue                                    # pending / preserved whitespace columns
+                    if isinstance(t, VAgg) and t.path == "StrModel":
+                        continue                                    # " ".repeat(n): whitespace
+                    if isinstance(t, VInt):
+                        # a character pushed by push_char: whitespace is pushed as such in <pre> (tab stops)
+                        if is_ws(t.e):
+                            continue
+                        got.append(("c", t.e))
+                    elif isinstance(t, VOpaque):
+                        got.append(("tok", t.name))
+                    else:
+                        got.append(("?", repr(t)[:40]))
+                want = [("tok", "LINE0"), ("tok", "WORD0")]
+                for c in chars:
+                    if not is_ws(c.e):
+                        want.append(("c", c.e))
+                same = len(got) == len(want) and all(a[0] == b[0] and (z3.eq(a[1], b[1]) if a[0] == "c" else a[1] == b[1]) for a, b in zip(got, want))
+                post(exe, s2, z3.BoolVal(bool(same)), f.name,
+                     "add_text(%s): what was there before and every non-whitespace character of the text is kept exactly once, in order (%s vs %s)" % (
+                         mode, [x[0] if x[0] != "tok" else x[1] for x in got], [x[0] if x[0] != "tok" else x[1] for x in want]))
+            if not n_ok:
+                raise Inconclusive("no successful path for %s" % mode)
+    return {"function": f.name, "paths": total}
+
 
 ALL = [
     Spec("table_col_width", ["C06", "C02", "C01"], spec_table_col_width,
@@ -4314,6 +4406,16 @@ ALL = [
          bounds="one element; its computed display arbitrary",
          assumptions=["computed_style is the subject of computed_style_sources / display_none_decls; DOM accessors by contract"],
          replay=lambda fd, vals, info: {"harness": "m_display_none", "values": [[0]]}),
+    Spec("wrap_text_preserved_normal", ["C13", "C03", "C04"], spec_wrap_text_preserved_normal,
+         functions=["WrappedBlock::{add_text, flush_word, flush_line, force_flush_line}"],
+         bounds="any valid block state; 2 characters from {a, space, newline, tab, wide, combining, NBSP} in normal flow",
+         assumptions=["as wrap_text_preserved"], replay=replay_wrap),
+    Spec("wrap_text_preserved", ["C03", "C04", "C13", "C12"], spec_wrap_text_preserved, tier="thorough",
+         functions=["WrappedBlock::{add_text, flush_word, flush_line, force_flush_line, progress_width}"],
+         bounds="any valid block state; 2 characters from the wrap alphabets in normal, pre and pre-wrap mode, a tab in pre mode, 3 characters in normal mode",
+         assumptions=["the contracts of section 9.1, with the elements of every TaggedLine tracked as a token sequence",
+                      "hard wrap is the contract here (it keeps the order: wrap_hard_wrap decides that on its MIR)"],
+         replay=replay_wrap),
     Spec("link_footnotes", ["C08"], spec_link_footnotes,
          functions=["TextRenderer::start_link", "TextRenderer::end_link"],
          bounds="0-2 links already recorded; footnote flag symbolic",
